@@ -11,6 +11,7 @@ import (
 	"reflect"
 	"regexp"
 	"sort"
+	"strings"
 
 	"github.com/antonmedv/expr/vm"
 )
@@ -43,6 +44,44 @@ type Val struct {
 func pb(b bool) *bool     { return &b }
 func pi(i int64) *int64   { return &i }
 func ps(s string) *string { return &s }
+
+// The two bytes of the rune U+00E9 (0xC3 0xA9) are the model characters '{' and
+// '|' (Prim!Ord): model strings are byte strings, so a value may end in the
+// middle of the rune after a slice.  No other model string contains '{' or '|'.
+func modelToReal(s string) string {
+	if !strings.ContainsAny(s, "{|") {
+		return s
+	}
+	b := []byte(s)
+	for i, c := range b {
+		switch c {
+		case '{':
+			b[i] = 0xC3
+		case '|':
+			b[i] = 0xA9
+		}
+	}
+	return string(b)
+}
+
+func realToModel(s string) string {
+	b := []byte(s)
+	changed := false
+	for i, c := range b {
+		switch c {
+		case 0xC3:
+			b[i] = '{'
+			changed = true
+		case 0xA9:
+			b[i] = '|'
+			changed = true
+		}
+	}
+	if !changed {
+		return s
+	}
+	return string(b)
+}
 func opaque(v interface{}) Val {
 	return Val{T: "opq", ID: fmt.Sprintf("%T:%v", v, v)}
 }
@@ -97,7 +136,7 @@ func absD(v interface{}, depth int) Val {
 	case bool:
 		return Val{T: "bool", B: pb(x)}
 	case string:
-		return Val{T: "str", S: ps(x)}
+		return Val{T: "str", S: ps(realToModel(x))}
 	case int:
 		return absInt("int", int64(x))
 	case int8:
@@ -374,7 +413,7 @@ func Concretize(v Val, t reflect.Type) (reflect.Value, error) {
 		if t.Kind() != reflect.String {
 			return out, fmt.Errorf("string into %v", t)
 		}
-		out.SetString(*v.S)
+		out.SetString(modelToReal(*v.S))
 	case "arr":
 		if t.Kind() != reflect.Slice {
 			return out, fmt.Errorf("array into %v", t)
@@ -450,7 +489,7 @@ func natural(v Val) (interface{}, error) {
 	case "bool":
 		return *v.B, nil
 	case "str":
-		return *v.S, nil
+		return modelToReal(*v.S), nil
 	case "int":
 		t := kindType(v.K)
 		if t == nil {
